@@ -117,14 +117,22 @@ def classify (env : Env) (st : PState) (ev0 : Bytes) : Decoded :=
   else if typ = Facts.eTableMapEvent then
     ofRes (tableID st.format ev) fun id =>
     ofRes (tableMap st.format ev) fun tm =>
-    match findTable st.tables id with
-    | some tc => .tableMap id { tc with tableMap := tm } true
-    | none =>
+    -- a new cache entry: ask the mapper, check the column count (`tablesMaps[tableID] = tc` is done by `stepD`)
+    let fresh : Decoded :=
       match env.mapper tm.database tm.name with
       | none => .decodeErr
       | some info =>
         if info.columns.length != tm.canBeNull.count then .decodeErr
         else .tableMap id ⟨tm, info⟩ false
+    -- `if tc, ok := tablesMaps[tableID]; ok && tc.tableMap.Database == tm.Database && tc.tableMap.Name == tm.Name`:
+    -- only an id cached for the *same* table keeps its mapper info; an id re-used for another table
+    -- (table ids start over when the master restarts) is treated like a new id  (finding F13)
+    match findTable st.tables id with
+    | some tc =>
+      if tc.tableMap.database = tm.database ∧ tc.tableMap.name = tm.name then
+        .tableMap id { tc with tableMap := tm } true
+      else fresh
+    | none => fresh
   else if typ = Facts.eWriteRowsEventV1 ∨ typ = Facts.eWriteRowsEventV2 ∨ typ = Facts.eUpdateRowsEventV1 ∨
           typ = Facts.eUpdateRowsEventV2 ∨ typ = Facts.eDeleteRowsEventV1 ∨ typ = Facts.eDeleteRowsEventV2 then
     let kind : RowKind :=
@@ -184,7 +192,11 @@ def stepD (st : PState) : Decoded → Step
     else if cat = Facts.StatementCommit then commitStep st st.tran next ts
     else .cont st
   | .tableMap id tc known =>
+    -- known: `tc.tableMap = tm` on the cached entry;  otherwise `tablesMaps[tableID] = tc`, a map assignment:
+    -- it replaces the entry of an id that is cached (for another table) and adds one for an id that is not
     if known then .cont { st with tables := st.tables.map fun p => if p.1 == id then (p.1, tc) else p }
+    else if (findTable st.tables id).isSome then
+      .cont { st with tables := st.tables.map fun p => if p.1 == id then (p.1, tc) else p }
     else .cont { st with tables := st.tables ++ [(id, tc)] }
   | .rows se next ts =>
     let st' := { st with tran := appendEv st.tran se }
